@@ -932,7 +932,7 @@ func (s *c16State) battery() {
 func TestVerifC16(t *testing.T) {
 	r := vk.Start(t, "C16")
 	defer r.Finish()
-	env := esrvStart(t, 1, "g")
+	env := esrvStart(t, esrvNodes(), "g")
 	defer env.Close()
 	r.Expect("call:Rows", "call:GroupBy", "call:MinRow", "call:MaxRow", "paging:Rows", "paging:GroupBy:previous", "paging:GroupBy:offset",
 		"write:Set:set", "write:Import:set", "write:ImportRoaring:set", "write:Set:time", "write:ImportRoaring:time", "shrink:ClearRow", "shrink:Clear", "shrink:Store",
